@@ -181,6 +181,21 @@ func init() {
 		emit("(* client.go: WithDSNMailReturnType / WithDSNRcptNotifyType store the very expression their switch validates *)\n")
 		emit("Definition dsn_ret_validated_is_stored : bool := %v.\nDefinition dsn_notify_validated_is_stored : bool := %v.\n",
 			dsnSame("WithDSNMailReturnType", "option"), dsnSame("WithDSNRcptNotifyType", "opt"))
+		// Msg.Reset: a top-level statement of the body assigns a freshly made map to m.addrHeader
+		realloc := false
+		if fn, ok := p.funcs["Msg.Reset"]; ok && fn.Body != nil {
+			for _, st := range fn.Body.List {
+				if as, ok := st.(*ast.AssignStmt); ok && len(as.Lhs) == 1 && len(as.Rhs) == 1 && p.src(as.Lhs[0]) == "m.addrHeader" {
+					if ce, ok := as.Rhs[0].(*ast.CallExpr); ok && p.src(ce.Fun) == "make" {
+						realloc = true
+					}
+				}
+			}
+		} else {
+			untranslatable = append(untranslatable, "reset_reallocates_addr_header")
+		}
+		emit("(* msg.go: Msg.Reset replaces m.addrHeader by a new map (unconditionally, at the top level of its body) *)\n")
+		emit("Definition reset_reallocates_addr_header : bool := %v.\n", realloc)
 		// the *Format setters: is the display name wrapped in quotedPairs(...) before it is interpolated?
 		var fe []string
 		for _, name := range []string{"EnvelopeFromFormat", "FromFormat", "AddToFormat", "AddCcFormat", "AddBccFormat", "ReplyToFormat", "RequestMDNAddToFormat"} {
